@@ -207,6 +207,8 @@ pub struct Slot {
     pub reader: Reader,
     /// Set after a panic inside the decoder: its state is unspecified.
     pub poisoned: bool,
+    /// Short-read knob: the source hands out at most this many bytes per read.
+    pub max_chunk: usize,
 }
 
 impl Slot {
@@ -218,7 +220,13 @@ impl Slot {
             reader: H263Reader::from_source(SimSource::new(pipe.clone())),
             pipe,
             poisoned: false,
+            max_chunk: usize::MAX,
         }
+    }
+    /// Swarm knob: from now on every pipe of this slot delivers short reads.
+    pub fn set_max_chunk(&mut self, n: usize) {
+        self.max_chunk = n.max(1);
+        self.pipe.lock().unwrap().max_chunk = self.max_chunk;
     }
     pub fn sorenson(&self) -> bool {
         self.opts & 1 == 1
@@ -226,6 +234,7 @@ impl Slot {
     /// Replace reader and pipe by fresh ones (as Ruffle does per FLV tag).
     pub fn new_reader(&mut self) {
         self.pipe = new_pipe();
+        self.pipe.lock().unwrap().max_chunk = self.max_chunk;
         self.reader = H263Reader::from_source(SimSource::new(self.pipe.clone()));
     }
     pub fn feed(&mut self, bytes: &[u8]) {
